@@ -336,6 +336,24 @@ pub mod mpsc {
         pub fn send(&self, v: T) -> SendFut<'_, T> {
             SendFut { tx: self, value: Some(v), ticket: 0 }
         }
+        /// tokio: `timeout(d, self.reserve())` then `permit.send(value)`
+        pub fn send_timeout(&self, v: T, timeout: std::time::Duration) -> SendTimeoutFut<'_, T> {
+            SendTimeoutFut { inner: SendFut { tx: self, value: Some(v), ticket: 0 }, deadline: crate::time::deadline_after(timeout) }
+        }
+        pub fn reserve(&self) -> ReserveFut<'_, T> {
+            ReserveFut { tx: self, ticket: 0, done: false }
+        }
+        pub fn try_reserve(&self) -> Result<Permit<'_, T>, TrySendError<()>> {
+            let c = ctr(self.id);
+            if c.closed {
+                return Err(TrySendError::Closed(()));
+            }
+            if c.free == 0 {
+                return Err(TrySendError::Full(()));
+            }
+            c.free -= 1;
+            Ok(Permit { tx: self, used: false })
+        }
         pub async fn closed(&self) {
             ClosedFut { id: self.id }.await
         }
@@ -410,6 +428,97 @@ pub mod mpsc {
                 return Poll::Ready(Ok(()));
             }
             Poll::Pending
+        }
+    }
+    pub struct SendTimeoutFut<'a, T> {
+        inner: SendFut<'a, T>,
+        deadline: u64,
+    }
+    impl<T> Unpin for SendTimeoutFut<'_, T> {}
+    impl<T> Future for SendTimeoutFut<'_, T> {
+        type Output = Result<(), SendTimeoutError<T>>;
+        fn poll(mut self: Pin<&mut Self>, cx: &mut Context<'_>) -> Poll<Self::Output> {
+            let me = &mut *self;
+            match Pin::new(&mut me.inner).poll(cx) {
+                Poll::Ready(Ok(())) => Poll::Ready(Ok(())),
+                Poll::Ready(Err(SendError(v))) => Poll::Ready(Err(SendTimeoutError::Closed(v))),
+                Poll::Pending => {
+                    if crate::time::now_ns() >= me.deadline {
+                        // withdraw (the permit request is dropped) and hand the value back
+                        if me.inner.ticket != 0 {
+                            ctr(me.inner.tx.id).withdraw(me.inner.ticket);
+                            me.inner.ticket = 0;
+                        }
+                        Poll::Ready(Err(SendTimeoutError::Timeout(me.inner.value.take().expect("polled after completion"))))
+                    } else {
+                        Poll::Pending
+                    }
+                }
+            }
+        }
+    }
+    /// a reserved slot: `send` cannot fail; dropping it unused returns the permit
+    pub struct Permit<'a, T> {
+        tx: &'a Sender<T>,
+        used: bool,
+    }
+    impl<T> Permit<'_, T> {
+        pub fn send(mut self, v: T) {
+            self.used = true;
+            push(self.tx.id, v);
+        }
+    }
+    impl<T> Drop for Permit<'_, T> {
+        fn drop(&mut self) {
+            if !self.used {
+                ctr(self.tx.id).release_one();
+            }
+        }
+    }
+    pub struct ReserveFut<'a, T> {
+        tx: &'a Sender<T>,
+        ticket: u32,
+        done: bool,
+    }
+    impl<T> Unpin for ReserveFut<'_, T> {}
+    impl<'a, T> Future for ReserveFut<'a, T> {
+        type Output = Result<Permit<'a, T>, SendError<()>>;
+        fn poll(mut self: Pin<&mut Self>, _cx: &mut Context<'_>) -> Poll<Self::Output> {
+            let me = &mut *self;
+            let c = ctr(me.tx.id);
+            if c.closed {
+                if me.ticket != 0 {
+                    c.withdraw(me.ticket);
+                    me.ticket = 0;
+                }
+                return Poll::Ready(Err(SendError(())));
+            }
+            if me.ticket == 0 {
+                if c.free > 0 {
+                    c.free -= 1;
+                    me.done = true;
+                    return Poll::Ready(Ok(Permit { tx: me.tx, used: false }));
+                }
+                assert!(c.wlen < MAXWAIT, "model bound: waiters <= MAXWAIT");
+                me.ticket = c.next_ticket;
+                c.next_ticket += 1;
+                c.waitq[c.wlen] = me.ticket;
+                c.wlen += 1;
+                return Poll::Pending;
+            }
+            if c.take_grant(me.ticket) {
+                me.ticket = 0;
+                me.done = true;
+                return Poll::Ready(Ok(Permit { tx: me.tx, used: false }));
+            }
+            Poll::Pending
+        }
+    }
+    impl<T> Drop for ReserveFut<'_, T> {
+        fn drop(&mut self) {
+            if self.ticket != 0 {
+                ctr(self.tx.id).withdraw(self.ticket);
+            }
         }
     }
     impl<T> Drop for SendFut<'_, T> {
